@@ -155,7 +155,7 @@ def check_C06(ctx):
         raise ToolError("behaviour generation produced nothing (%d, %d)" % (n1, n2))
     trace = ctx.path("trace.ndjson")
     vlib.vh(["tokens", "--in", beh, "--out", trace])
-    tv = vlib.validate_trace_parallel("trace/TokenTrace.tla", "trace/TokenTrace.cfg", trace, nparts=4 if q else 12, timeout=1800)
+    tv = vlib.validate_trace_parallel("trace/TokenTrace.tla", "trace/TokenTrace.cfg", trace, nparts=4 if q else 36, timeout=1800)
     total, distinct = vlib.count_distinct_behaviours(beh)
     nontrivial = sum(1 for line in open(beh) if '"ann"' in line and '"get"' in line)
     ctx.add_tv("tokens", tv, total, min(distinct, nontrivial))
@@ -276,7 +276,7 @@ def check_C07(ctx):
             f.write(open(p).read())
     trace = ctx.path("trace.ndjson")
     vlib.vh(["peers", "--in", beh, "--out", trace])
-    tv = vlib.validate_trace_parallel("trace/PeerTrace.tla", "trace/PeerTrace.cfg", trace, nparts=8, timeout=3000)
+    tv = vlib.validate_trace_parallel("trace/PeerTrace.tla", "trace/PeerTrace.cfg", trace, nparts=8 if q else 40, timeout=3000)
     total, distinct = vlib.count_distinct_behaviours(beh)
     nontrivial = sum(1 for line in open(beh) if '"find"' in line and ('"add"' in line or '"fill"' in line))
     ctx.add_tv("peers", tv, total, min(distinct, nontrivial))
@@ -477,7 +477,7 @@ CHECK_DEADLOCK FALSE
         for p in (trace + ".1", trace + ".2", trace + ".3"):
             f.write(open(p).read())
     tv = vlib.validate_trace_parallel("trace/TableTrace.tla", ctx.cfg("tv.cfg", TABLE_TV_CFG % ", ".join('"%s"' % s for s in strict)),
-                                      trace, nparts=14, timeout=3000)
+                                      trace, nparts=14 if q else 70, timeout=3000)
     total, distinct = vlib.count_distinct_behaviours(beh)
     ctx.add_tv("table", tv, total, distinct)
     ctx.cov["rule"] = ("behaviours = all operation sequences (offer as responder / as hearsay, query sent, query received, time) of "
